@@ -32,14 +32,12 @@ ASSUMPTIONS = [
     "a standard CLEAR_FEATURE that carries an IN data stage (wLength != 0, malformed) need not be stalled at the data-"
     "stage token, only at its status stage (the statement's 'or'); every other unsupported request must be stalled "
     "at its FIRST opportunity",
-    "a further SETUP arrives only after the host finished the previous request: its OUT status stage was answered "
-    "(IN data requests), or its status-stage IN was stalled or its ZLP ACKed while that IN token was still current; "
-    "a PRECEDING SET_ADDRESS/SET_CONFIGURATION/CLEAR_FEATURE has no IN data stage (a SETUP that interrupts an "
-    "unfinished request is property C07)",
+    "a further SETUP may arrive at any time, also while the previous request is unfinished (e.g. its status-stage "
+    "ACK was lost); the device must restart on it [USB 2.0 8.5.3]",
     "tx.ready free every cycle; active_config symbolic constant",
 ]
 BOUNDS = "BMC from reset, all 8 setup bytes symbolic per request, two consecutive requests; quick K=12, thorough K=18"
-OUTSIDE = "SETUP interrupting an unfinished request (C07); requests skiplisted by the application; behaviour after " \
+OUTSIDE = "requests skiplisted by the application; behaviour after " \
           "the first stall of a request (the statement only asks for the first opportunity)"
 
 STD_IMPLEMENTED = (0, 1, 5, 6, 8, 9)   # GET_STATUS, CLEAR_FEATURE, SET_ADDRESS, GET_DESCRIPTOR, GET/SET_CONFIGURATION
@@ -79,10 +77,10 @@ class UnsupportedHarness(Harness):
         self.rx_rfr = self.inp("rx_ready_for_response", 1)
         self.rx_inv = self.inp("rx_invalid", 1)
         self.cfg = self.inp("active_config", 8, const=True)
-        self.a_prev = self.assume("preceding_request_well_formed")
         self.v = {n: self.viol(n) for n in ("no_data", "no_ack", "no_state_change", "stall_first", "stall_status")}
         self.c = {n: self.cover(n) for n in ("stall_at_data", "stall_at_status", "nonstandard_stalled",
                                              "clear_feature_stalled", "second_request_stalled", "std_unimplemented",
+                                             "stalled_after_interrupted_request",
                                              "supported_answered", "ack_while_pending")}
 
     def elaborate(self, platform):
@@ -101,7 +99,8 @@ class UnsupportedHarness(Harness):
         ack_after = Signal(name="ack_after_status")
         nreq = Signal(2, name="nreq")
         complete = Signal(name="prev_complete")
-        may_setup = ~have | complete
+        # a SETUP may arrive at any time, also in the middle of an unfinished request [USB 2.0 8.5.3]
+        may_setup = Const(1)
         setup_now = Signal(name="setup_now")
         m.d.comb += setup_now.eq(self.do_setup & may_setup & ~received)
         m.d.usb += received.eq(setup_now)
@@ -163,9 +162,9 @@ class UnsupportedHarness(Harness):
                 m.d.usb += complete.eq(1)
             with m.If(zlp_pending & self.ack_in & ~new_token):
                 m.d.usb += [complete.eq(1), ack_after.eq(1)]
-        # a preceding SET_ADDRESS / SET_CONFIGURATION / CLEAR_FEATURE is well formed (no IN data stage)
-        regwrite = (F["type"] == 0) & ((F["request"] == 1) | (F["request"] == 5) | (F["request"] == 9))
-        m.d.comb += self.a_prev.eq(~(setup_now & have & regwrite & has_in_data))
+        interrupted = Signal(name="prev_interrupted")
+        with m.If(setup_now):
+            m.d.usb += interrupted.eq(have & ~complete)
 
         # --- the statement's predicate
         std = F["type"] == 0
@@ -207,6 +206,7 @@ class UnsupportedHarness(Harness):
             c["clear_feature_stalled"].eq(watching & opportunity & stall & clear_feature_other),
             c["std_unimplemented"].eq(watching & opportunity & stall & std & ~implemented),
             c["second_request_stalled"].eq(watching & opportunity & stall & (nreq == 2)),
+            c["stalled_after_interrupted_request"].eq(watching & opportunity & stall & interrupted),
             c["supported_answered"].eq(have & ~unsupported & (sh.tx.valid | sh.handshakes_out.ack)),
             c["ack_while_pending"].eq(watching & self.ack_in & first_done),
         ]
